@@ -4,18 +4,25 @@
 //! sim replay <file>
 //! sim selftest determinism [--runs N]
 //! sim list
+#![allow(dead_code)]
 
 mod a_drain;
 mod a_req;
 mod a_world;
+mod alloc_count;
 mod checks;
 mod core;
 mod engine_a;
+mod engine_b;
+mod inflate;
 mod mpart;
 mod simdata;
 mod tape;
 
 use crate::core::*;
+
+#[global_allocator]
+static ALLOC: alloc_count::Counting = alloc_count::Counting;
 use serde_json::{json, Value};
 use std::time::Instant;
 
@@ -78,7 +85,6 @@ fn cmd_check(args: &[String]) -> i32 {
     let runs_override = arg_val(args, "--runs").and_then(|s| s.parse().ok());
     println!("VERIF_SEED={seed} tier={} property={} workers={nworkers} repo={}", if thorough { "thorough" } else { "quick" }, check.prop, repo_head());
     let t0 = Instant::now();
-    let known = load_known();
     let mut parts_json = Vec::new();
     let mut total = Stats::default();
     let mut total_runs = 0u64;
@@ -93,41 +99,6 @@ fn cmd_check(args: &[String]) -> i32 {
                 return 2;
             }
         };
-        // Known (open) findings are reported once and the search continues past them.
-        let mut skip_from = 0u64;
-        while let Some(f) = rep.found.take() {
-            let k = known.iter().find(|k| k.property == f.violation.prop && k.oracle == f.violation.oracle && f.violation.msg.contains(&k.contains));
-            match k {
-                Some(k) => {
-                    let line = format!("KNOWN-FINDING: property={} {}", k.property, k.what);
-                    if !known_hits.contains(&line) {
-                        println!("{line}");
-                        known_hits.push(line);
-                    }
-                    // Re-run the remainder of this part after the known failing run.
-                    skip_from = f.run + 1;
-                    let _ = skip_from;
-                    // A known finding masks nothing else: continue with the remaining runs by
-                    // re-running the part restricted to later indices.
-                    match run_part_from(&check, pi, thorough, seed, nworkers, runs_override, f.run + 1) {
-                        Ok(r2) => {
-                            rep.stats_merge(r2.stats);
-                            rep.runs += r2.runs;
-                            rep.hash_xor ^= r2.hash_xor;
-                            rep.found = r2.found;
-                        }
-                        Err(e) => {
-                            eprintln!("HARNESS-ERROR: {e}");
-                            return 2;
-                        }
-                    }
-                }
-                None => {
-                    rep.found = Some(f);
-                    break;
-                }
-            }
-        }
         println!(
             "part {} engine={} mode={} runs={} wall={:.1}s nontrivial_distinct={} ({})",
             pi, part.engine.name, part.mode, rep.runs, rep.wall_s, rep.stats.sigs.len(), part.what
@@ -170,6 +141,14 @@ fn cmd_check(args: &[String]) -> i32 {
         }
     }
     let wall = t0.elapsed().as_secs_f64();
+    for (id, n) in &total.known_hits {
+        let known = KNOWN.get_or_init(|| std::sync::Arc::new(load_known())).clone();
+        if let Some(k) = known.iter().find(|k| &k.id == id) {
+            let line = format!("KNOWN-FINDING: property={} {} [{} hits in this run; {}]", k.property, k.what, n, k.id);
+            println!("{line}");
+            known_hits.push(line);
+        }
+    }
     let nviol = violation.is_some() as i64;
     let counters: serde_json::Map<String, Value> = total.counters.iter().map(|(k, v)| (k.to_string(), json!(v))).collect();
     let faults: serde_json::Map<String, Value> = total.counters.iter().filter(|(k, _)| k.starts_with("fault_")).map(|(k, v)| (k.to_string(), json!(v))).collect();
